@@ -79,6 +79,22 @@ fn main() {
         }
     }
     let start = Instant::now();
+    // wall-clock and memory caps of the whole check: a subject that never terminates or keeps allocating
+    // must not take the machine down; hitting a cap is a machinery exit, never a verdict
+    {
+        let id = id.clone();
+        let budget_s: u64 = std::env::var("VERIF_WALL_CAP_S").ok().and_then(|s| s.parse().ok()).unwrap_or(if tier == Tier::Quick { 900 } else { 7200 });
+        let rss_cap_kb: u64 = std::env::var("VERIF_RSS_CAP_MB").ok().and_then(|s| s.parse().ok()).unwrap_or(24_000) * 1024;
+        std::thread::spawn(move || loop {
+            std::thread::sleep(std::time::Duration::from_secs(2));
+            let rss_kb = std::fs::read_to_string("/proc/self/statm").ok().and_then(|s| s.split_whitespace().nth(1).and_then(|x| x.parse::<u64>().ok())).map(|pages| pages * 4).unwrap_or(0);
+            let wall = start.elapsed().as_secs();
+            if wall > budget_s || rss_kb > rss_cap_kb {
+                println!("MACHINERY-ERROR property={} resource cap hit after {} s with {} MB resident (caps: {} s, {} MB): the check was aborted", id, wall, rss_kb / 1024, budget_s, rss_cap_kb / 1024);
+                std::process::exit(2);
+            }
+        });
+    }
     let mut rep = Report::new(&id, tier, seed);
     // a panic that escapes the per-execution handlers is a defect of the harness, never a verdict
     match std::panic::catch_unwind(std::panic::AssertUnwindSafe(|| props::run(&id, &mut rep))) {
@@ -113,6 +129,9 @@ fn main() {
                 .unwrap_or_else(|_| Err(format!("the replay panicked (last panic at {:?})", LAST_PANIC.lock().map(|g| g.clone()).unwrap_or(None))));
             match replayed {
                 Ok(list) if list.iter().any(|(sig, _)| *sig == v.sig) => {}
+                // C08 claims reproducibility itself: a digest mismatch seen in the run that does not show again
+                // on replay is a non-deterministic subject, i.e. the violation, not a harness problem
+                Ok(other) if other.is_empty() && id == "C08" && ["same-seed-different-result", "completion-order-changes-result", "thread-pool-changes-result", "result-depends-on-earlier-run-on-the-thread"].iter().any(|k| v.sig.contains(k)) => {}
                 Ok(other) => {
                     stable = false;
                     machinery.push(format!(
